@@ -1088,6 +1088,19 @@ pub fn gen(rng: &mut Rng, profile: Profile) -> GenOut {
                     t.wcs.push(p);
                 }
             }
+            // a where-clause that names the trait itself with other arguments (symmetry `trait Iso<T> where T: Iso<Self>`,
+            // or a fixed instance `Self: Conv<A>`): implied bounds between instances of ONE trait
+            if !t.params.is_empty() && rng.coin(if hyp { 30 } else { 12 }) {
+                let p0 = Ty::Var(t.params[0].clone());
+                let p = if rng.coin(65) {
+                    Pred { ty: p0, tr: t.name.clone(), args: (0..t.params.len()).map(|_| Ty::Var("Self".into())).collect() }
+                } else {
+                    Pred { ty: Ty::Var("Self".into()), tr: t.name.clone(), args: (0..t.params.len()).map(|_| rand_ty(rng, &ar, 0, &[], false)).collect() }
+                };
+                if !t.wcs.contains(&p) {
+                    t.wcs.push(p);
+                }
+            }
         }
     }
     let trait_info: Vec<(String, usize, TraitKind)> = traits.iter().map(|t| (t.name.clone(), t.params.len(), t.kind)).collect();
@@ -1665,6 +1678,16 @@ pub fn gen_zoo(rng: &mut Rng) -> World {
         if rng.coin(50) {
             items.push(format!("impl<'l0> Tr for R<'l0, {}> {{ }}", leaf));
         }
+    }
+    if rng.coin(35) {
+        // impl parameters (const / type) used UNDER a binder of the header: fn pointers, with or without `for<'a>`
+        let trn = rng.pick(&["Tr", "Mk"]).to_string();
+        items.push(match rng.below(4) {
+            0 => format!("impl<const N0> {} for fn(S<N0>) -> A {{ }}", trn),
+            1 => format!("impl<T0, const N0> {} for fn([T0; N0]) -> T0 {{ }}", trn),
+            2 => format!("impl<const N0> {} for for<'a> fn(R<'a, S<N0>>) -> () {{ }}", trn),
+            _ => format!("impl<T0> {} for for<'a> fn(R<'a, T0>) -> P<T0> {{ }}", trn),
+        });
     }
     let mut goals = vec![];
     for _ in 0..rng.range(5, 9) {
